@@ -15,6 +15,9 @@ type Prop struct {
 	Real             []string
 	Stub             []string
 	Assume           []string
+	LevelText        string
+	LevelNote        string
+	Technique        string
 }
 
 var worlds = map[string]*World{
@@ -31,7 +34,15 @@ func wu(real ...string) *Prop {
 }
 
 var props = map[string]*Prop{
-	"C29": wu("internal/idle.Manager (all of idle.go)"),
+	"C29": wu("internal/idle.Manager (all of idle.go)").doc(
+		"Seeded search over interleavings of the atomic steps of OnCallBegin/OnCallEnd/timer callback/ExitIdleMode/Close of the real idle.Manager (every atomic and lock is a scheduling point), with idle timeouts of nanoseconds so expiry races with calls; oracle checked at every enforcer callback and every call boundary. Sampling, not proof.",
+		"Trusted: detrt runtime patch, synctest clock, the oracle. clientconn.go's use of the manager is exercised separately in the end-to-end world.",
+		"seeded schedule search over the real idle.Manager with a recording enforcer"),
+}
+
+func (p *Prop) doc(level, note, technique string) *Prop {
+	p.LevelText, p.LevelNote, p.Technique = level, note, technique
+	return p
 }
 
 func propOrder() []string {
